@@ -90,6 +90,9 @@ TABLE = {
             'Constructor: for all configuration numbers in the box the accept / reject decision, the stored list and the range-vs-list form are decided by the solver on every path; all listed malformed requests are rejected; '
             'closure: every operator between Obs / CObs / int / float / complex in both orders and the other producers yield well-formed real or complex observables (the same invariant is asserted on every result in C01, C05, C07-C09, C11, C13, C17).',
             'Structure is enumerated (the solver decides values only in the constructor part); pickle outside; known finding: Obs ** complex returns a complex-valued Obs.'),
+    'C16': (True, 'symbolic execution of Corr.GEVP / _GEVP_solver on symbolic matrix entries behind LAPACK contracts (eigh, cholesky, inv); SMT (QF_NRA) eigen-equation and ordering obligations',
+            'WIRING ONLY: every vector returned for state s at time t satisfies G(t) v = lambda G(t0) v on the symmetrised matrices with lambda the s-th largest eigenvalue of the contract; undefined slices and t <= t0 give None; invalid requests are rejected.',
+            'Not applicable to this technique (stated in DESIGN.md section 6): recovery of exact exponentials, agreement of the eigh and Cholesky solutions, eigenvector sorting over time, pruning and the matrix-pencil method - statements about LAPACK output on specific matrices; vector_obs=True.'),
 }
 
 NOT_YET = 'check not built yet in this session (work in progress; see DESIGN.md section 4 for the plan)'
